@@ -70,12 +70,20 @@ type Token struct {
 type Scn struct {
 	Cfg       *ScnCfg
 	Log       []Event
-	Origs     map[uintptr]int
+	Origs     map[OKey]int
 	Proxies   map[uintptr][2]int
 	NextP     int
 	EarlyMade map[[2]int]any
 	Instances []any
 }
+
+// OKey identifies an original instance: all zero-size objects share one address, so the dynamic type is part of the key.
+type OKey struct {
+	P uintptr
+	T reflect.Type
+}
+
+func okey(v reflect.Value) OKey { return OKey{v.Pointer(), v.Type()} }
 
 type Base struct {
 	C *CompCfg
@@ -253,18 +261,26 @@ func pointFields(v reflect.Value) []reflect.Value {
 		return nil
 	}
 	var wire, fn []reflect.Value
-	t := v.Type()
-	for i := 0; i < t.NumField(); i++ {
-		f := t.Field(i)
-		if !f.IsExported() {
-			continue
-		}
-		if _, ok := f.Tag.Lookup(definition.InjectTag); ok {
-			wire = append(wire, v.Field(i))
-		} else if _, ok := f.Tag.Lookup(definition.FuncTag); ok {
-			fn = append(fn, v.Field(i))
+	var walk func(v reflect.Value)
+	walk = func(v reflect.Value) {
+		t := v.Type()
+		for i := 0; i < t.NumField(); i++ {
+			f := t.Field(i)
+			if f.Anonymous && f.Type.Kind() == reflect.Struct && f.Tag == "" {
+				walk(v.Field(i)) // an embedded struct (of an exported or unexported type) is looked through
+				continue
+			}
+			if !f.IsExported() {
+				continue
+			}
+			if _, ok := f.Tag.Lookup(definition.InjectTag); ok {
+				wire = append(wire, v.Field(i))
+			} else if _, ok := f.Tag.Lookup(definition.FuncTag); ok {
+				fn = append(fn, v.Field(i))
+			}
 		}
 	}
+	walk(v)
 	return append(wire, fn...)
 }
 
@@ -308,7 +324,7 @@ func (s *Scn) token(v reflect.Value) Token {
 		return Token{-1, -1}
 	}
 	a := v.Pointer()
-	if r, ok := s.Origs[a]; ok {
+	if r, ok := s.Origs[okey(v)]; ok {
 		return Token{r, -1}
 	}
 	if p, ok := s.Proxies[a]; ok {
@@ -387,7 +403,7 @@ func guard(f func()) (p string) {
 // RunScenario executes one scenario against the real container.
 func RunScenario(cfg *ScnCfg) (res Result) {
 	res.ID = cfg.ID
-	s := &Scn{Cfg: cfg, Origs: map[uintptr]int{}, Proxies: map[uintptr][2]int{}, EarlyMade: map[[2]int]any{}}
+	s := &Scn{Cfg: cfg, Origs: map[OKey]int{}, Proxies: map[uintptr][2]int{}, EarlyMade: map[[2]int]any{}}
 	insts := make([]any, len(cfg.Comps))
 	for i := range cfg.Comps {
 		c := &cfg.Comps[i]
@@ -398,7 +414,7 @@ func RunScenario(cfg *ScnCfg) (res Result) {
 			return
 		}
 		insts[i] = ctor(Base{C: c, S: s})
-		s.Origs[reflect.ValueOf(insts[i]).Pointer()] = c.Rank
+		s.Origs[okey(reflect.ValueOf(insts[i]))] = c.Rank
 	}
 	s.Instances = insts
 	var comps []any
@@ -452,8 +468,8 @@ func RunScenario(cfg *ScnCfg) (res Result) {
 				if r, ok := cfg.Names[name]; ok {
 					v := reflect.ValueOf(c)
 					if v.Kind() == reflect.Ptr {
-						if _, known := s.Origs[v.Pointer()]; !known {
-							s.Origs[v.Pointer()] = r
+						if _, known := s.Origs[okey(v)]; !known {
+							s.Origs[okey(v)] = r
 						}
 						objs[r] = c
 					}
@@ -463,7 +479,7 @@ func RunScenario(cfg *ScnCfg) (res Result) {
 	}
 	if r, ok := cfg.Names[compName(a)]; ok {
 		objs[r] = a
-		s.Origs[reflect.ValueOf(a).Pointer()] = r
+		s.Origs[okey(reflect.ValueOf(a))] = r
 	}
 	for i, in := range insts {
 		objs[cfg.Comps[i].Rank] = in
